@@ -58,6 +58,10 @@ CHECKS = {
          "Exploration: 270 variable types (every non-null pattern of list depth 0-3 over 5 built-in scalars, an enum, a recursive input object, a @oneOf object, a custom scalar) x 46 (quick) / 1150 (thorough) x 16 calls = 199k / 5M VariableValues calls with type-directed Go values (all numeric Go kinds, json.Number, typed slices, nested maps), one injected defect at a random depth in ~75% of them, single values for lists at every depth, omitted variables with and without defaults.",
          "The conformance predicate accepts the leniencies listed in the evidence (float for Int, numeric strings, json.Number, case-variant enum names, __typename key); @oneOf cardinality is outside the statement. Two defects repaired (e6343ba, 5280a2d).",
          "DESIGN.md §4 C14"),
+ "C15": ("total-function monitor (panic observer) + independent argument-map evaluator over the model (literal > variable > variable default > argument default) compared with reflect.DeepEqual for every field and directive",
+         "Exploration: 10k (quick) / 300k (thorough) valid documents from the typed generator, each with a per-variable choice of conforming value / explicit null / omission passed through VariableValues; ArgumentMap is called for every field and directive of every operation, of the fragments it reaches and of its variable definitions (75k / 2.2M maps), incl. custom-scalar arguments with arbitrary literals, nested variables and extreme numerals.",
+         "Supplied variables are taken as coerced by the library (C14 judges that); omitted ones must have an entry. One recorded finding (panic on custom-scalar integer literals beyond int64).",
+         "DESIGN.md §4 C15"),
  "C16": ("limit-exactness oracle against an independent reference token count, every limit 0..T+2; hook counters (lexer reads, last scanned byte) for the work bound; lowered stack ceiling for recursion depth",
          "Exploration: ~8k (quick) / 60k (thorough) documents of both grammars (valid and single-token-mutated, comments everywhere) are parsed under every limit from 0 to T+2 through ParseQueryWithTokenLimit, ParseSchemaWithLimit and ParseSchemasWithLimit (per-source limits); success must be exact (L=0 or L>=T reproduces the unlimited tree by reflect.DeepEqual; 0<L<T fails) and monotone, and every limit failure must have read at most L+2 tokens and scanned no byte beyond reference token L+2. 1-8 MiB floods (nesting, tokens, comments) under limits 1..15000 run with a 32 MiB stack ceiling so unbounded recursion is a fatal exit.",
          "T comes from the reference lexer (C03); when the unlimited parse fails only failure (not the error text) is required of limits >= T, because the property asks no more. Work is measured in hook counters, not time.",
